@@ -35,7 +35,7 @@ REAL_STUB = {
              "KlongInterpreter incl. parse cache and compiled-expression cache", "numpy backend; torch backend (cpu) in configuration 'torch'"],
     "stub": ["the differentiated function's failure: an identity tick callable that raises / returns a vector at its k-th invocation"],
 }
-EXPECTED_PROBES = ["probe_fault_in_first_probe", "probe_fault_in_later_probe", "probe_symbol_point_rebinding", "probe_multi_param", "probe_jacobian",
+EXPECTED_PROBES = ["probe_state_read_inside_the_error_handler", "probe_fault_in_first_probe", "probe_fault_in_later_probe", "probe_symbol_point_rebinding", "probe_multi_param", "probe_jacobian",
                    "probe_literal_point", "probe_nonscalar_fault", "probe_unknown_name", "probe_earlier_result_kept_in_a_variable",
                    "probe_parameter_after_a_descent_step", "probe_operator_inside_a_function", "probe_reassign_then_repeat",
                    "probe_plain_functions_before_and_after"]
@@ -104,6 +104,17 @@ def _snapshot(klong, skip=("t", "keep")):
             continue
         if name not in snap:
             snap[name] = _desc(val)
+    # what a later evaluation sees besides the variables: an array product that overflows answers inf (process-wide numeric
+    # modes are state too; judged through the evaluator, not by reading numpy's settings)
+    try:
+        import warnings
+        with warnings.catch_warnings():
+            warnings.simplefilter("ignore")
+            snap["<the value of [1.0e200 2.0]*1.0e200>"] = _desc(klong("[1.0e200 2.0]*1.0e200"))
+    except BaseException as e:   # noqa
+        if isinstance(e, (SystemExit, KeyboardInterrupt)):
+            raise
+        snap["<the value of [1.0e200 2.0]*1.0e200>"] = ("raises", type(e).__name__)
     return snap
 
 
@@ -221,7 +232,7 @@ def scenario(ch, cfg):
         if len(violations) < 8 and not any(v["sig"] == sig for v in violations):
             violations.append({"sig": sig, "msg": msg})
 
-    def run(src_, fail_at=None, mode=None):
+    def run(src_, fail_at=None, mode=None, in_handler=None):
         ctl["n"] = 0
         ctl["fail_at"] = fail_at
         ctl["mode"] = mode
@@ -230,6 +241,10 @@ def scenario(ch, cfg):
         except BaseException as e:   # noqa
             if isinstance(e, (SystemExit, KeyboardInterrupt)):
                 raise
+            if in_handler is not None:
+                # what the program's error handler sees: the exception (and its traceback) is still alive here
+                ctl["fail_at"] = None
+                in_handler()
             return ("exc", type(e).__name__)
         finally:
             ctl["fail_at"] = None
@@ -278,8 +293,12 @@ def scenario(ch, cfg):
     for k in range(1, n_ticks + 1):
         for mode in modes:
             before = _snapshot(klong)
-            r = run(src, fail_at=k, mode=mode)
+            held = {}
+            r = run(src, fail_at=k, mode=mode, in_handler=lambda: held.update(snap=_snapshot(klong)))
             evaluations += 1
+            if "snap" in held:
+                bump("probe_state_read_inside_the_error_handler")
+                compare(before, held["snap"], f"{src} failing ({mode}) at evaluation tick {k}/{n_ticks}, state as the error handler sees it (exception still alive)")
             after = _snapshot(klong)
             bump("probe_fault_in_first_probe" if k <= 2 else "probe_fault_in_later_probe")
             if mode == "nonscalar":
